@@ -53,12 +53,30 @@ def run(ctx):
     ctx.rule("R07.6", "VALIDATOR-READER: per-tag payload class of rtosc_message_ring_length == arg_size == extract_arg")
 
     # ---- R07.1
+    # byte accessors: deref() itself and helpers of the unit that read only through an accessor (e.g. a big-endian word
+    # reader made of four deref() calls); weight = bytes read per call
+    weight = {"deref": 1}
+    changed = True
+    while changed:
+        changed = False
+        for q_, fns_ in u.functions.items():
+            if q_ in weight or q_ in RING_FUNCS:
+                continue
+            for f_ in fns_:
+                b_ = u.body(f_)
+                if b_ is None or any(x.get("kind") == "MemberExpr" and x.get("name") == "data" for x in A.walk(b_)):
+                    continue
+                w_ = sum(weight[A.callee_name(c)] for c in A.calls_in(b_) if A.callee_name(c) in weight)
+                if w_ and not any(x.get("kind") in ("WhileStmt", "ForStmt", "DoStmt") for x in A.walk(b_)):
+                    weight[q_] = w_
+                    changed = True
+    accessors = set(weight)
     for q in RING_FUNCS:
         fn = u.function(q)
         direct = [x for x in A.walk(u.body(fn)) if x.get("kind") == "MemberExpr" and x.get("name") == "data"]
-        nder = len(list(A.calls_in(u.body(fn), "deref")))
+        nder = sum(weight[A.callee_name(c)] for c in A.calls_in(u.body(fn)) if A.callee_name(c) in weight)
         ctx.require(nder >= 4, "%s: only %d deref() calls found" % (q, nder))
-        ctx.ob("R07.1", q, not direct, site=A.where(direct[0]) if direct else A.where(fn), detail={"deref_calls": nder, "direct_data_accesses": len(direct)},
+        ctx.ob("R07.1", q, not direct, site=A.where(direct[0]) if direct else A.where(fn), detail={"deref_calls": nder, "direct_data_accesses": len(direct), "accessors": sorted(accessors)},
                what="%s reads ring memory directly (`%s`) instead of through deref()" % (q, A.src(direct[0]) if direct else ""))
 
     # ---- R07.2
@@ -113,7 +131,7 @@ def run(ctx):
     for q in RING_FUNCS:
         f = m.functions.get(q)
         ctx.require(f is not None, "IR of %s not found" % q)
-        res, slots = TA.unguarded_arith(f, {"deref"})
+        res, slots = TA.unguarded_arith(f, accessors)
         ctx.require(slots, "%s: no value assembled from deref() found" % q)
         for k, (inst, slot, ok, g) in enumerate(res):
             ctx.ob("R07.4", "%s:arith#%d" % (q, k), ok, site=inst.where(), detail={"inst": inst.text[:120], "slot": slot, "guard": g.text[:120] if g is not None else None},
